@@ -94,7 +94,9 @@ def run(ctx):
     ctx.coverage["rule"] = ("histories of 45/70 commands over 1-3 sessions and two mailboxes, biased to message-adding and "
                             "-removing commands, external deliveries, polls (packing enabled at 4 messages / ratio 0.8), "
                             "orderly restarts; non-trivial = the history assigned a UID after an expunge in the same mailbox "
-                            "(a gap where reuse could show) or contains a restart")
+                            "(a gap where reuse could show) or contains a restart. Plus: histories with deliveries the server cannot see yet "
+                            "(folder mtime unchanged; ledger and binding oracles only); DELETE/CREATE (also subscribed / with inferiors / "
+                            "with a restart) and RENAME UIDVALIDITY scenarios")
     ok = ctx.prove("Properties/C02.v")
     n = 400 if ctx.thorough else 64
     hs = mboxx.generate(ctx, n, 70 if ctx.thorough else 45, mix=MIX, pack=(4, 4, 5))
